@@ -66,6 +66,11 @@ def main(tier):
     for seed in range(12 if thorough else 2):
         for observe in ("server", "client"):
             runs.append((f"{rng.seed()}/streams{seed}/{observe}", observe, "streams", 0))
+    # the same families in the phase "handshake complete, not yet confirmed" (every HANDSHAKE_DONE datagram lost)
+    for seed in range(10 if thorough else 2):
+        for observe in ("client", "server"):
+            for mode in ("train", "streams", "mixed"):
+                runs.append((f"{rng.seed()}/phase{seed}/{observe}/{mode}", observe, mode + "@complete", 0 if mode != "mixed" else 60))
     # dense trains: arrivals closer than the ack delay for longer than max_ack_delay
     for seed in range(40 if thorough else 6):
         for observe in ("server", "client"):
@@ -113,6 +118,8 @@ def main(tier):
         "streams never opened / open / half-closed / reset / finished-and-discarded (client- and server-opened), time then run "
         "to max_ack_delay; ack-elicitation is decided by the harness from the plaintext frames (RFC 9002 2) and compared with "
         "the connection's armed ack timer after every receive_datagram; plus dense "
+        "the train / stream-lifecycle / mixed families again in the phase handshake-complete-but-not-confirmed (every datagram "
+        "carrying HANDSHAKE_DONE lost, both roles), strictly driven by get_timer()/handle_timer; "
         "trains of ack-eliciting packets 0.1-0.9 ms apart (below the 1 ms ack delay) lasting 50-100 ms (2x-4x max_ack_delay), "
         "receiver idle or sending, its datagrams delivered or lost, clock advanced in sub-millisecond steps. "
         "Non-trivial = ACK frames were written and ACK-of-ACK deliveries pruned the queue."
